@@ -902,7 +902,8 @@ def run(tier, seed, replay=None):
                 spec_unknown += 1
             else:
                 spec_checked += 1
-                if obs != exp and not ("other" in obs and spec[0] in ("file", "module")):   # missing file / module not importable (-I, -P)
+                unimportable = spec[0] == "module" and obs.get("ran") == exp["ran"][1:] and not obs.get("l1")   # -I / -P: cwd not on sys.path
+                if obs != exp and not unimportable and not ("other" in obs and spec[0] in ("file", "module")):   # missing file / module
                     spec_mismatch += 1
                     out.disagreements.append({"correspondence": "py_cmdline (specification) <-> /venv/bin/python", "tokens": toks,
                                               "spec": spec, "expected": exp, "observed": obs})
